@@ -7,6 +7,6 @@ CONSTANTS
   PMax = 1
   RichLeaves = TRUE
   Getters = {"has", "int", "str", "ilist", "slist", "dur"}
-  Depth = 14
+  Depth = 18
 INVARIANTS Emit
 CHECK_DEADLOCK FALSE
